@@ -4,32 +4,47 @@ use solang_parser::pt::{self, FunctionTy, Loc};
 use solang_parser::{self, pt::SourceUnit};
 
 use crate::analyzer::ast::{self, Target};
-use crate::analyzer::utils::get_32_byte_storage_variables;
 
 pub fn private_vars_leading_underscore(source_unit: SourceUnit) -> HashSet<Loc> {
     //Create a new hashset that stores the location of each qa target identified
     let mut qa_locations: HashSet<Loc> = HashSet::new();
 
-    let storage_variables = get_32_byte_storage_variables(source_unit.clone(), true, false);
+    let contract_definition_nodes =
+        ast::extract_target_from_node(Target::ContractDefinition, source_unit.into());
 
-    for (variable_name, variable_attribute) in storage_variables {
-        let (option_variable_attributes, loc) = variable_attribute;
+    for contract_definition_node in contract_definition_nodes {
+        if let Some(pt::SourceUnitPart::ContractDefinition(contract_definition)) =
+            contract_definition_node.source_unit_part()
+        {
+            //Every state variable of the contract, whatever its type
+            for part in contract_definition.parts {
+                if let pt::ContractPart::VariableDefinition(variable_definition) = part {
+                    //Constants are covered by the private_constant optimization
+                    let is_constant = variable_definition
+                        .attrs
+                        .iter()
+                        .any(|attr| matches!(attr, pt::VariableAttribute::Constant(_)));
 
-        if option_variable_attributes.is_some() {
-            let variable_attributes = option_variable_attributes.unwrap();
+                    if is_constant {
+                        continue;
+                    }
 
-            for attr in variable_attributes {
-                if let pt::VariableAttribute::Visibility(v) = attr {
-                    match v {
-                        pt::Visibility::Private(_) | pt::Visibility::Internal(_) => {
-                            if !variable_name.starts_with('_') {
-                                qa_locations.insert(loc);
-                            }
-                        }
-                        // Public variables
-                        _ => {
-                            if variable_name.starts_with('_') {
-                                qa_locations.insert(loc);
+                    let variable_name = &variable_definition.name.name;
+
+                    for attr in &variable_definition.attrs {
+                        if let pt::VariableAttribute::Visibility(v) = attr {
+                            match v {
+                                pt::Visibility::Private(_) | pt::Visibility::Internal(_) => {
+                                    if !variable_name.starts_with('_') {
+                                        qa_locations.insert(variable_definition.loc);
+                                    }
+                                }
+                                // Public variables
+                                _ => {
+                                    if variable_name.starts_with('_') {
+                                        qa_locations.insert(variable_definition.loc);
+                                    }
+                                }
                             }
                         }
                     }
